@@ -68,6 +68,7 @@ def check(tier, seed):
         C.props_obligations(res, 'C17', wd)
         C.tie_b_helpers(res, wd)
         C.tie_b_gnss(res, wd)
+        C.tie_b_lever(res, wd)
         rng = C.rng_for(seed, 'C17')
         mt = R.message_table()
         GN = mt['UbxCfgGnss']['cls']
